@@ -138,6 +138,7 @@ func c20Parallel(c c20Par) (v kit.Verdict) {
 
 	// 2. the same calls from len(G) goroutines released together, R times
 	var ready int32
+	start := make(chan struct{})
 	var wg sync.WaitGroup
 	var mu sync.Mutex
 	var firstFail string
@@ -147,10 +148,15 @@ func c20Parallel(c c20Par) (v kit.Verdict) {
 		wg.Add(1)
 		go func(g int) {
 			defer wg.Done()
-			atomic.AddInt32(&ready, 1)
-			for atomic.LoadInt32(&ready) < n { // start barrier
+			// start barrier: a short bounded spin for a tight start, then a channel
+			// (pure spinning burns the whole quantum when the machine is oversubscribed)
+			if atomic.AddInt32(&ready, 1) == n {
+				close(start)
+			}
+			for spin := 0; spin < 200 && atomic.LoadInt32(&ready) < n; spin++ {
 				runtime.Gosched()
 			}
+			<-start
 			for r := 0; r < c.R; r++ {
 				for i, cl := range plan[g] {
 					got := c20pDo(cl.k, cl.s, cl.t)
@@ -200,7 +206,7 @@ func TestVerif_C20_parallel_calls(t *testing.T) {
 		}
 		return c
 	})
-	kit.Run(t, "C20", c20ParallelRule, kit.Opts{Quick: 400, Thorough: 16000},
+	kit.Run(t, "C20", c20ParallelRule, kit.Opts{Quick: 400, Thorough: 3200},
 		func(rt *rapid.T) c20Par {
 			return c20Par{
 				R: rapid.IntRange(20, 200).Draw(rt, "r"),
